@@ -293,12 +293,22 @@ fn mk_frame(x: &Sx) -> Option<StackFrame> {
 
 fn mk_thread(x: &Sx) -> Option<CallStack> {
     let l = x.as_list()?;
-    if l.len() != 4 {
+    if l.len() != 4 && l.len() != 5 {
         return None;
     }
+    // optional 5th item: how the stack walk ended (not printed by print_json, but a `print_json`
+    // that looked at it — e.g. skipping the dump-writing thread when indexing — must be noticed)
+    let info = match l.get(4).map(|x| x.atom()) {
+        None | Some(Some("ok")) => CallStackInfo::Ok,
+        Some(Some("missing_context")) => CallStackInfo::MissingContext,
+        Some(Some("missing_memory")) => CallStackInfo::MissingMemory,
+        Some(Some("unsupported_cpu")) => CallStackInfo::UnsupportedCpu,
+        Some(Some("dump_thread_skipped")) => CallStackInfo::DumpThreadSkipped,
+        _ => return None,
+    };
     Some(CallStack {
         frames: l[0].list(mk_frame)?,
-        info: CallStackInfo::Ok,
+        info,
         thread_id: l[1].nat()? as u32,
         thread_name: l[2].opt(|x| x.string())?,
         last_error_value: l[3].opt(mk_reason)?,
@@ -1285,14 +1295,17 @@ fn oracle(ps: &ProcessState, compact: &[u8], pretty: &[u8]) -> (Vec<(String, Str
     or.addr(&ci["adjusted_address"]["address"], w, "crash_info.adjusted_address.address");
     or.addr(&ci["adjusted_address"]["offset"], w, "crash_info.adjusted_address.offset");
     or.addr(&ci["instruction_pointer_update"]["address"], w, "crash_info.instruction_pointer_update.address");
+    if ci["instruction_pointer_update"].get("is_likely_guard_page").map_or(false, |v| v.as_bool() != Some(true)) {
+        or.fail("schema-guard-page-flag", format!("crash_info.instruction_pointer_update.is_likely_guard_page = {}", ci["instruction_pointer_update"]["is_likely_guard_page"]));
+    }
     let accesses = ci["memory_accesses"].as_array().cloned().unwrap_or_default();
     for (i, a) in accesses.iter().enumerate() {
         let p = format!("crash_info.memory_accesses[{i}]");
         or.addr(&a["address"], w, &format!("{p}.address"));
         or.u32f(&a["size"], &format!("{p}.size"));
         enum_check(&mut or, &a["access_type"], &ACCESS_DOC, &[], "access_type", &format!("{p}.access_type"));
-        if !a["is_likely_guard_page"].is_null() && !a["is_likely_guard_page"].is_boolean() {
-            or.fail("schema-bool", format!("{p}.is_likely_guard_page = {}", a["is_likely_guard_page"]));
+        if a.get("is_likely_guard_page").map_or(false, |v| v.as_bool() != Some(true)) {
+            or.fail("schema-guard-page-flag", format!("{p}.is_likely_guard_page = {}: json-schema.md says the member may only be present when the value is true", a["is_likely_guard_page"]));
         }
     }
     // memory_accesses mirrors the state's list (address, size, guard flag, kind of access; the kind
@@ -1559,6 +1572,11 @@ struct DumpSpec {
     modules: Vec<(u64, u64, String)>,
     unloaded: Vec<(u64, u64, String)>,
     stack: Vec<u8>,
+    /// other threads before / after the crashing one (ids 100.., own context and stack), and
+    /// which position of the thread list (if any) Breakpad names as the dump-writing thread
+    before: u64,
+    after: u64,
+    dump_thread: Option<u64>,
 }
 
 fn reg_of(regs: &[(String, u64)], name: &str) -> u64 {
@@ -1637,8 +1655,37 @@ fn synth_dump(c: &DumpSpec) -> Option<Vec<u8>> {
     ex.exception_record.exception_information[1] = c.exc[4];
     ex.exception_record.exception_address = c.exc[5];
     ex.thread_context = (context_size.value()? as u32, context_label.value()? as u32);
+    let other_ctx = synth::amd64_context(Endian::Little, 0x6000_0040, 0x7100_0008);
+    let mut ids: Vec<u32> = Vec::new();
+    let mut others = Vec::new();
+    for k in 0..(c.before + c.after).min(8) {
+        let st = synth::Memory::with_section(Section::with_endian(Endian::Little).append_repeated(0, 16), 0x7100_0000 + k * 0x1000);
+        others.push((synth::Thread::new(Endian::Little, 100 + k as u32, &st, &other_ctx), st));
+    }
+    let mut others = others.into_iter();
+    for k in 0..c.before.min(8) {
+        if let Some((t, st)) = others.next() {
+            dump = dump.add_thread(t).add_memory(st);
+            ids.push(100 + k as u32);
+        }
+    }
+    dump = dump.add_thread(thread);
+    ids.push(1);
+    for (k, (t, st)) in others.enumerate() {
+        dump = dump.add_thread(t).add_memory(st);
+        ids.push(100 + c.before.min(8) as u32 + k as u32);
+    }
+    if ids.len() > 1 {
+        dump = dump.add(other_ctx);
+    }
+    if let Some(tid) = c.dump_thread.and_then(|k| ids.get(k as usize)) {
+        // MINIDUMP_BREAKPAD_INFO: validity (dump thread | requesting thread), dump thread, requesting thread
+        dump = dump.add_stream(synth::SimpleStream {
+            stream_type: md::MINIDUMP_STREAM_TYPE::BreakpadInfoStream as u32,
+            section: Section::with_endian(Endian::Little).D32(3).D32(*tid).D32(1),
+        });
+    }
     dump = dump
-        .add_thread(thread)
         .add_exception(ex)
         .add_system_info(synth::SystemInfo::new(Endian::Little).set_processor_architecture(arch).set_platform_id(platform));
     if !c.code.is_empty() {
@@ -1749,10 +1796,14 @@ fn ip_update_template(addr: u64) -> Option<ExceptionInfo> {
 /// `json procx <os> <cpu> ( exc ) ( regs ) b<code> ( regions ) <data> <lsb> <limits> <maps> <thread name>
 ///  ( modules ) ( unloaded ) b<stack>` → `process_minidump`
 fn build_procx(items: &[Sx]) -> Option<ProcessState> {
-    if items.len() != 15 {
+    if items.len() != 16 {
         return None;
     }
     let exc: Vec<u64> = items[3].list(|x| x.nat())?;
+    let th = items[15].as_list()?;
+    if th.len() != 3 {
+        return None;
+    }
     let triple = |x: &Sx| {
         let l = x.as_list()?;
         Some((l.first()?.nat()?, l.get(1)?.nat()?, l.get(2)?.string()?))
@@ -1781,6 +1832,9 @@ fn build_procx(items: &[Sx]) -> Option<ProcessState> {
         modules: items[12].list(triple)?,
         unloaded: items[13].list(triple)?,
         stack: items[14].bytes()?,
+        before: th[0].nat()?,
+        after: th[1].nat()?,
+        dump_thread: th[2].opt(|x| x.nat())?,
     };
     process_bytes(synth_dump(&spec)?)
 }
@@ -2164,6 +2218,7 @@ fn gen_state(rng: &mut Rng, g: &GenOpts) -> Vec<Sx> {
             n(if rng.chance(1, 8) { u32::MAX as u64 } else { rng.below(100000) }),
             ogs(rng),
             if rng.chance(1, 3) { gen_reason(rng) } else { none() },
+            tag(if nframes == 0 { pk(rng, &["ok", "missing_context", "missing_memory", "unsupported_cpu", "dump_thread_skipped"]) } else { "ok" }),
         ]));
     }
     let req = match rng.below(6) {
@@ -2378,7 +2433,7 @@ const INSNS: [(&str, &[u8]); 36] = [
 fn procx_case(
     os: &str, cpu: &str, exc: [u64; 6], regs: &[(&str, u64)], code: &[u8], regions: &[(u64, u64, u32)],
     data: Option<(u64, Vec<u8>)>, lsb: Option<&str>, limits: Option<&str>, maps: Option<&str>, tname: Option<&str>,
-    modules: &[(u64, u64, &str)], unloaded: &[(u64, u64, &str)], stack: &[u8],
+    modules: &[(u64, u64, &str)], unloaded: &[(u64, u64, &str)], stack: &[u8], threads: (u64, u64, Option<u64>),
 ) -> Vec<Sx> {
     let ob = |t: Option<&str>| o(t, |t| bts(t.as_bytes()));
     vec![
@@ -2397,6 +2452,7 @@ fn procx_case(
         L(modules.iter().map(|(a, bb, c)| L(vec![n(*a), n(*bb), s(c)])).collect()),
         L(unloaded.iter().map(|(a, bb, c)| L(vec![n(*a), n(*bb), s(c)])).collect()),
         bts(stack),
+        L(vec![n(threads.0), n(threads.1), on(threads.2)]),
     ]
 }
 
@@ -2405,7 +2461,10 @@ fn procx_case(
 /// the consistency checks is reachable
 fn gen_procx(rng: &mut Rng) -> Vec<Sx> {
     const DATA: u64 = 0x5000_0000; // readable+writable page; a no-access (guard) page sits below it
-    const RIP: u64 = 0x40_0000;
+    // the crashing instruction sits in the main module, or (1 in 6) where only unloaded modules were
+    let in_unloaded = rng.chance(1, 6);
+    #[allow(non_snake_case)]
+    let RIP: u64 = if in_unloaded { 0x6100_0900 } else { 0x40_0000 };
     const RSP: u64 = 0x7000_0100;
     let os = *rng.pick(&["win", "win", "linux", "mac", "android"]);
     let cpu = if rng.chance(1, 10) { *rng.pick(&["x86", "arm64"]) } else { "amd64" };
@@ -2500,8 +2559,8 @@ fn gen_procx(rng: &mut Rng) -> Vec<Sx> {
         1 => "/usr/lib/libcrash.so".to_string(),
         _ => gen_string(rng, true).replace('\0', ""),
     };
-    let modules: Vec<(u64, u64, &str)> = if rng.chance(3, 4) { vec![(RIP, 0x1000, &mod_name), (0x6000_0000, 0x10000, "second.dll")] } else { vec![] };
-    let unloaded: Vec<(u64, u64, &str)> = if rng.chance(1, 3) { vec![(0x6100_0000, 0x1000, "gone.dll"), (0x6100_0800, 0x1000, "gone.dll"), (0x6100_0000, 0x2000, "also gone.dll")] } else { vec![] };
+    let modules: Vec<(u64, u64, &str)> = if rng.chance(3, 4) { vec![(0x40_0000, 0x1000, &mod_name), (0x6000_0000, 0x10000, "second.dll")] } else { vec![] };
+    let unloaded: Vec<(u64, u64, &str)> = if in_unloaded || rng.chance(1, 3) { vec![(0x6100_0000, 0x1000, "gone.dll"), (0x6100_0800, 0x1000, "gone.dll"), (0x6100_0000, 0x2000, "also gone.dll")] } else { vec![] };
     // stack words: return addresses into the modules / the unloaded modules / nowhere
     let mut stack = Vec::new();
     if rsp == RSP {
@@ -2510,10 +2569,16 @@ fn gen_procx(rng: &mut Rng) -> Vec<Sx> {
             stack.extend_from_slice(&w.to_le_bytes());
         }
     }
+    let threads = match rng.below(4) {
+        0 => (rng.below(3), rng.below(3), Some(rng.below(4))),
+        1 => (rng.range(1, 3), rng.below(2), None),
+        _ => (0, 0, None),
+    };
     procx_case(
         os, cpu, exc,
         &[("rip", RIP), ("rsp", rsp), ("rbx", rbx), ("rax", rax), ("rcx", rcx), ("rbp", if rng.chance(1, 2) { RSP + 0x10 } else { 0 })],
         &code, &regions, data, lsb.as_deref(), limits.as_deref(), maps.as_deref(), tname.as_deref(), &modules, &unloaded, &stack,
+        threads,
     )
 }
 
@@ -2646,7 +2711,7 @@ fn directed(emit: &mut dyn FnMut(String)) {
             emit(format!("json {}", sx_line(&procx_case("win", "amd64", [0xc000_0005, 0, 2, write, 0x5000_0010, 0x40_0000],
                 &[("rip", 0x40_0000), ("rsp", 0x7000_0100), ("rbx", 0x5000_0010), ("rcx", 2), ("rax", 0x6000_0000)],
                 code, &[(0x5000_0000, 0x1000, 0x04), (0x4fff_f000, 0x1000, 0x01)], Some((0x5000_0010, vec![0x78, 0x56, 0x34, 0x12, 0, 0, 0, 0])),
-                None, None, None, Some("crasher"), &[(0x40_0000, 0x1000, "C:\\app\\crash.exe")], &[], &[0u8; 32]))));
+                None, None, None, Some("crasher"), &[(0x40_0000, 0x1000, "C:\\app\\crash.exe")], &[], &[0u8; 32], (write, 1 - write, None)))));
         }
     }
     // crashing thread without frames / no crashing thread / empty state
@@ -2776,6 +2841,14 @@ impl Json {
         });
         let from_processor = case.starts_with("json proc ");
         let from_procx = case.starts_with("json procx ");
+        if (from_procx || from_processor) && !wf(&r.ps) {
+            // `WF` is the theorems' hypothesis: a state the processor itself produced must satisfy it
+            res.oracle.push((
+                "processor-state-not-well-formed".into(),
+                format!("process_minidump returned a state outside WF (requesting thread {:?} of {} threads / module ranges / frame bases)",
+                    r.ps.requesting_thread, r.ps.threads.len()),
+            ));
+        }
         if from_processor && !soft_ok {
             let t: String = r.ps.soft_errors.as_ref().map(|v| v.to_string()).unwrap_or_default().chars().take(80).collect();
             res.oracle.push((
@@ -2788,6 +2861,39 @@ impl Json {
             && (r.ps.threads.iter().any(|t| !t.frames.is_empty()) || r.ps.modules.iter().next().is_some());
         res.tags = tags_of(&r);
         if from_procx {
+            // the dump's exception record names thread id 1: whatever index the processor chose,
+            // the report's crashing thread must be that thread
+            if let Some(j) = &orc_json {
+                let idx = j["crash_info"]["crashing_thread"].as_u64();
+                let by_index = idx.and_then(|i| j["threads"].get(i as usize)).map(|t| t["thread_id"].clone());
+                let copy = j.get("crashing_thread").map(|t| t["thread_id"].clone());
+                if by_index.as_ref().map_or(false, |v| v.as_u64() != Some(1)) || copy.as_ref().map_or(false, |v| v.as_u64() != Some(1)) {
+                    res.oracle.push((
+                        "processor-crashing-thread-id".into(),
+                        format!("the exception record names thread 1; crash_info.crashing_thread = {idx:?} is thread {by_index:?}, crashing_thread.thread_id = {copy:?}"),
+                    ));
+                }
+                let skipped = r.ps.threads.iter().any(|t| t.thread_id == 1 && matches!(t.info, CallStackInfo::DumpThreadSkipped));
+                if r.ps.exception_info.is_some() && idx.is_none() && !skipped {
+                    res.oracle.push(("processor-crashing-thread-id".into(), "exception present, thread 1 in the list, but no crashing thread index".into()));
+                }
+            }
+            let ps = &r.ps;
+            for (name, on) in [
+                ("lsb_release", ps.linux_standard_base.is_some()),
+                ("proc_limits", ps.linux_proc_limits.is_some()),
+                ("linux_memory_map_count", ps.linux_memory_map_count.is_some()),
+                ("thread_name", ps.threads.iter().any(|t| t.thread_name.is_some())),
+                ("frame.module", ps.threads.iter().any(|t| t.frames.iter().any(|f| f.module.is_some()))),
+                ("frame.unloaded_modules", ps.threads.iter().any(|t| t.frames.iter().any(|f| !f.unloaded_modules.is_empty()))),
+                ("frame.unloaded_modules:several-offsets", ps.threads.iter().any(|t| t.frames.iter().any(|f| f.unloaded_modules.values().any(|o| o.len() > 1)))),
+                ("dump-thread-skipped", ps.threads.iter().any(|t| matches!(t.info, CallStackInfo::DumpThreadSkipped))),
+                ("crashing-thread-not-first", ps.requesting_thread.map_or(false, |i| i > 0)),
+            ] {
+                if on {
+                    res.tags.push(format!("processor-path/{name}"));
+                }
+            }
             let extra: Vec<String> = crash_tags(&r.ps).into_iter().map(|t| format!("processor-path/{t}")).collect();
             res.tags.extend(extra);
             res.tags.push(format!("processor-path/frames:{}", r.ps.threads.first().map_or(0, |t| t.frames.len()).min(4)));
